@@ -33,10 +33,10 @@ type dstep struct {
 
 type dscenario struct {
 	hostExists bool // <base>/<hostname> already exists durably (another table lives on this host)
-	log     []logEntry
-	batches [][]logEntry
-	steps   []dstep
-	srt     fsm.SnapshotRecoveryType // recovery type of the table under test
+	log        []logEntry
+	batches    [][]logEntry
+	steps      []dstep
+	srt        fsm.SnapshotRecoveryType // recovery type of the table under test
 }
 
 func markerCmd(rng *rand.Rand, i int) m.Cmd {
